@@ -4,7 +4,7 @@ import glob, json, os, re
 here = os.path.dirname(os.path.dirname(os.path.abspath(__file__)))
 def rd(p): return open(os.path.join(here, p), encoding='utf-8').read()
 out = [rd('design.d/_head.md').rstrip('\n'), '']
-EXTRA = {'C01': ['WRAP', 'OS', 'HANDLES', 'MULTI', 'FTP', 'FTPMODEL'], 'C02': ['TEXT'], 'C10': ['INFO'], 'C12': ['PATHGEN'], 'C14': ['GEN2']}
+EXTRA = {'C01': ['WRAP', 'OS', 'HANDLES', 'MULTI', 'MOUNT', 'FTP', 'FTPMODEL'], 'C02': ['TEXT'], 'C10': ['INFO'], 'C12': ['PATHGEN'], 'C14': ['GEN2']}
 props = [json.loads(l) for l in open(os.path.join(here, 'properties.jsonl')) if l.strip()]
 for p in props:
     f = 'design.d/%s.md' % p['id']
